@@ -35,9 +35,10 @@ impl<W: Write> DefaultProtocolWriter<W> {
     fn write_type_and_value(&mut self, type_id: u8, value: u64, mut size: u8) {
         if self.ok {
             size = size.saturating_sub(4);
+            // For the widest type (68 bits) the leading nibble lies beyond the 64 bits of the value and is 0.
             let mut r = self
                 .writer
-                .write_u8(type_id | (((value >> size) as u8) & 0x0F));
+                .write_u8(type_id | ((value.checked_shr(size as u32).unwrap_or(0) as u8) & 0x0F));
             while size > 0 && r.is_ok() {
                 size = size.saturating_sub(8);
                 r = self.writer.write_u8((value >> size) as u8);
@@ -173,7 +174,7 @@ impl<W: Write> ProtocolWriter<W> for DefaultProtocolWriter<W> {
         } else if value < (1u64 << 60) {
             self.write_type_and_value(FSM_PROTOCOL_TYPE_INT_60BIT, value, 60);
         } else {
-            self.write_type_and_value(FSM_PROTOCOL_TYPE_INT_68BIT, value, 64);
+            self.write_type_and_value(FSM_PROTOCOL_TYPE_INT_68BIT, value, 68);
         }
     }
 
